@@ -532,6 +532,42 @@ def run(ctx) -> None:
     run_prerequisite(ctx, "C18", ("R4",), "R7")
 
     # ---------------------------------------------------------------- R9
+    maybe_empty = remote_lookup_rule(ctx, "R9")
+    n_remote = 0
+    for fq_ in sorted(effects.sites):
+        if not fq_.startswith("vcs.VCSAPI."):
+            continue
+        fn_ = prog.function(fq_)
+        for s_ in effects.sites[fq_]:
+            if not (s_.effect.startswith("VCS_MUTATE:push") or s_.effect.startswith("VCS_FETCH")) or not isinstance(s_.node, ast.Call):
+                continue
+            kw = {k.arg: k.value for k in s_.node.keywords}
+            c_ = cfgs.get(fq_)
+            pc_ = PathCond(c_)
+            r = pc_.reach(c_.node_containing(s_.node))
+            if "remote" in kw:
+                n_remote += 1
+                val = unparse(kw["remote"])
+                truthy = val in r.atoms and r.implies(BF.var(val))
+            else:
+                # fetch: guarded by the truthiness of get_remote() itself
+                n_remote += 1
+                truthy = any("get_remote()" in a and r.implies(BF.var(a)) for a in r.atoms)
+            ctx.check("R9", truthy or not maybe_empty, f"{fq_} L{s_.node.lineno}: runs only with a non-empty remote",
+                      f"{fq_}: the {s_.detail.get('cmd')} command can run with an empty remote",
+                      f"the site is reached when {r.drop_unused().to_dnf()} and get_remote() can return an empty string (`{unparse(maybe_empty[0].ast) if maybe_empty else ''}`): "
+                      f"without a configured remote `git push  --follow-tags <tag> HEAD` / `hg push` is issued", loc=fn_.loc(s_.node))
+    ctx.floor("R9", "push / fetch sites", n_remote, 3)
+
+    # ---------------------------------------------------------------- R10
+    from checks.c12 import configured_message_rule
+    configured_message_rule(ctx, "R10")
+
+
+def remote_lookup_rule(ctx, rule: str):
+    """get_remote: never an empty string for a command, the tracked remote of the current branch for git, the remote listing
+    as the fallback - for git too.  Returns the return nodes that may yield an empty string."""
+    prog, cfgs, effects = ctx.prog, ctx.cfgs, ctx.effects
     # `{remote}` sites: the value comes from get_remote(); the command may only run when it is a non-empty string.
     # Either the site is guarded by the truthiness of the value, or get_remote never returns an empty string.
     gr = prog.function("vcs.VCSAPI.get_remote")
@@ -581,40 +617,20 @@ def run(ctx) -> None:
     has_branch_listing = any(isinstance(c_, ast.Call) and c_.args and const_str(c_.args[0]) == "ls_branches" for c_ in ast.walk(gr.node))
     if has_branch_listing:
         ok_tr = len(tracked) == 1 and tracked[0][1] and len(loops_) == 1 and any(x is tracked[0][0].ast for x in ast.walk(loops_[0]))
-        ctx.check("R9", ok_tr, "get_remote (git): the remote of the current branch is returned - `return m['remote']` under `m['is_current']` for m in BRANCH_RE.finditer(listing)",
+        ctx.check(rule, ok_tr, "get_remote (git): the remote of the current branch is returned - `return m['remote']` under `m['is_current']` for m in BRANCH_RE.finditer(listing)",
                   "vcs.VCSAPI.get_remote: the remote that the current branch tracks is not returned",
                   f"returns of m['remote']: {[(unparse(n_.ast), ok_) for n_, ok_ in tracked]}, finditer loops: {len(loops_)}: with push enabled on a branch that tracks a remote not named origin "
                   "the push step is silently skipped", loc=gr.loc())
-    ctx.check("R9", bool(live), "get_remote: a non-empty remote listing is returned (an enabled push is performed on a branch without upstream)",
+    # the listing is the fallback for git as well (a branch without upstream, a detached HEAD): it must be reachable when name == 'git'
+    git_atoms = [a for a in gpc_.atoms if a.replace('"', "'") in ("self.name == 'git'",)]
+    if live and git_atoms:
+        reach_git = any(not (gpc_.reach(n.id) & BF.var(git_atoms[0])).is_false() for n in live)
+        ctx.check(rule, reach_git, "get_remote: the remote listing is also consulted for git (branch without upstream, detached HEAD)",
+                  "vcs.VCSAPI.get_remote: for git the remote listing is never consulted",
+                  f"the returns of the listing are reached only when {[gpc_.reach(n.id).drop_unused().to_dnf() for n in live]}: on a branch that tracks nothing get_remote() is None, "
+                  "`git fetch` is silently skipped (the bump starts from stale local tags) and an enabled push is skipped", loc=gr.loc(), witness={"git": "checkout -b feature (no upstream)"})
+    ctx.check(rule, bool(live), "get_remote: a non-empty remote listing is returned (an enabled push is performed on a branch without upstream)",
               "vcs.VCSAPI.get_remote: a listed remote is never returned",
               "no return hands on the `show_remotes` output under a non-empty test: with push enabled and a remote configured the push step is silently skipped",
               loc=gr.loc())
-    n_remote = 0
-    for fq_ in sorted(effects.sites):
-        if not fq_.startswith("vcs.VCSAPI."):
-            continue
-        fn_ = prog.function(fq_)
-        for s_ in effects.sites[fq_]:
-            if not (s_.effect.startswith("VCS_MUTATE:push") or s_.effect.startswith("VCS_FETCH")) or not isinstance(s_.node, ast.Call):
-                continue
-            kw = {k.arg: k.value for k in s_.node.keywords}
-            c_ = cfgs.get(fq_)
-            pc_ = PathCond(c_)
-            r = pc_.reach(c_.node_containing(s_.node))
-            if "remote" in kw:
-                n_remote += 1
-                val = unparse(kw["remote"])
-                truthy = val in r.atoms and r.implies(BF.var(val))
-            else:
-                # fetch: guarded by the truthiness of get_remote() itself
-                n_remote += 1
-                truthy = any("get_remote()" in a and r.implies(BF.var(a)) for a in r.atoms)
-            ctx.check("R9", truthy or not maybe_empty, f"{fq_} L{s_.node.lineno}: runs only with a non-empty remote",
-                      f"{fq_}: the {s_.detail.get('cmd')} command can run with an empty remote",
-                      f"the site is reached when {r.drop_unused().to_dnf()} and get_remote() can return an empty string (`{unparse(maybe_empty[0].ast) if maybe_empty else ''}`): "
-                      f"without a configured remote `git push  --follow-tags <tag> HEAD` / `hg push` is issued", loc=fn_.loc(s_.node))
-    ctx.floor("R9", "push / fetch sites", n_remote, 3)
-
-    # ---------------------------------------------------------------- R10
-    from checks.c12 import configured_message_rule
-    configured_message_rule(ctx, "R10")
+    return maybe_empty
